@@ -7,6 +7,7 @@ CONSTANTS
   MaxForget = 1
   MaxFail = 1
   Cancellable = {}
+  MaxReprepare = 3
   UniqueIds = TRUE
   Plans <- PlansCore
 INVARIANTS Bounded PreparedOnce FailedNotCached FailedReported ExecAttribution ArityChecked Justified NoStuck
